@@ -96,6 +96,11 @@ def model_values(model, inputs):
     return out
 
 
+def export_only(o):
+    return {'status': 'unknown', 'backend': '-', 'time_s': 0.0, 'model': None,
+            'smt2': to_smt2(o.premises, o.goal), 'untried': True}
+
+
 def solve_quick(o, z3_ms=1500, want_model=True, on_model=None):
     """Stage 1 (in the generating process): a short z3 attempt. Returns a result dict; when the
     verdict is still open, res['smt2'] carries the SMT-LIB text for stage 2."""
@@ -130,8 +135,13 @@ def solve_quick(o, z3_ms=1500, want_model=True, on_model=None):
 
 def solve_text(args):
     """Stage 2 (pool worker): cvc5 and z3 CLI on the SMT-LIB text; first definite answer wins."""
-    txt, cvc5_s, z3_s, both = args
+    txt, cvc5_s, z3_s, both = args[:4]
     t0 = time.time()
+    if len(args) > 4 and args[4]:
+        # not yet tried by z3: a short z3 attempt first
+        r0, t0_ = run_z3cli(txt, 5)
+        if r0 in ('sat', 'unsat') and 'str.replace_all' not in txt or r0 == 'unsat':
+            return {'status': r0, 'backend': 'z3-5.1(cli)', 'time_s': t0_}
     r1, t1 = run_cvc5(txt, cvc5_s)
     out = {'status': 'unknown', 'backend': 'cvc5-1.0.3', 'time_s': t1}
     if r1 in ('sat', 'unsat'):
